@@ -2,6 +2,8 @@
 
 from __future__ import annotations
 
+from pathlib import Path
+
 import numpy as np
 import pandas as pd
 from hypothesis import strategies as st
@@ -55,6 +57,10 @@ def budget(tier):
 @st.composite
 def _case(draw, tier):
     big = tier != "quick"
+    if draw(st.sampled_from([False] * 24 + [True])):
+        # results written to an SQLite database instead of text / Parquet files
+        return {"kind": "sqlite", "seed": draw(st.integers(0, 2**31 - 1)), "n": draw(st.integers(80, 300)), "decoys": draw(st.booleans()),
+                "fmt": draw(st.sampled_from(["tsv", "parquet"])), "lowbetter": draw(st.booleans())}
     return {
         "seed": draw(st.integers(0, 2**31 - 1)),
         "nt": draw(st.one_of(st.integers(50, 150), st.integers(100, 1500 if big else 700))),
@@ -146,7 +152,66 @@ def _check_rollup_peps(case, algo, src, counters):
         counters["rollup_rows_checked"] = counters.get("rollup_rows_checked", 0) + len(got)
 
 
+def _check_sqlite(case):
+    """PSM and peptide tables of an SQLite result database: every row's PEP is the PEP of that row's score (the estimator is
+    a fixed function of the score here), the score is the one handed over for that PSM, q-values are monotone in the score."""
+    import sqlite3
+
+    import mokapot
+    import config_inject
+    import datagen
+    from core import scratch_dir
+
+    config_inject.install_pep_stub()
+    n = case["n"]
+    with scratch_dir() as tmp:
+        df, meta = datagen.psm_frame(case["seed"], [1] * n, key_arity=2, n_noise=1, with_rid=False)
+        df["SpecId"] = np.arange(len(df))
+        path = Path(tmp) / ("x.parquet" if case["fmt"] == "parquet" else "x.pin")
+        datagen.write_table(df, path)
+        db = Path(tmp) / "results.db"
+        con = sqlite3.connect(db)
+        con.execute("CREATE TABLE CANDIDATE (CANDIDATE_ID INTEGER NOT NULL, PSM_FDR REAL, SVM_SCORE REAL, POSTERIOR_ERROR_PROBABILITY REAL, "
+                    "PRIMARY KEY (CANDIDATE_ID));")
+        con.execute("CREATE TABLE PEPTIDE_VALIDATION (PEPTIDE_ID TEXT NOT NULL, FDR REAL, PEP REAL, SVM_SCORE REAL, PRIMARY KEY (PEPTIDE_ID));")
+        con.executemany("INSERT INTO CANDIDATE (CANDIDATE_ID) VALUES (?);", [(int(i),) for i in df["SpecId"]])
+        con.commit()
+        con.close()
+        dest = Path(tmp) / "dest"
+        dest.mkdir()
+        good = df["f0"].values.astype(float) * 3.0 + np.arange(len(df)) * 1e-9   # spread well beyond [0, 1]
+        sc = -good if case.get("lowbetter") else good
+        guarded(mokapot.assign_confidence, [datagen.build_ondisk(path, df, meta)], max_workers=1, scores=[sc.copy()],
+                descs=[not case.get("lowbetter")], eval_fdr=0.2, dest_dir=dest, prefixes=[None], decoys=case["decoys"],
+                peps_algorithm="verif_stub", sqlite_path=db, sig="assign_confidence")
+        con = sqlite3.connect(db)
+        psm = con.execute("SELECT CANDIDATE_ID, PSM_FDR, SVM_SCORE, POSTERIOR_ERROR_PROBABILITY FROM CANDIDATE WHERE PSM_FDR IS NOT NULL").fetchall()
+        pep = con.execute("SELECT PEPTIDE_ID, FDR, SVM_SCORE, PEP FROM PEPTIDE_VALIDATION").fetchall()
+        con.close()
+    by_id = dict(zip(df["SpecId"].tolist(), sc.tolist()))
+    require(len(psm) > 0 and len(pep) > 0, "sqlite-empty", f"{len(psm)} PSM rows and {len(pep)} peptide rows were written")
+    given = set(sc.tolist())
+    for name, rows in (("CANDIDATE", psm), ("PEPTIDE_VALIDATION", pep)):
+        for rid, q, s_, pe in rows:
+            require(pe is not None and 0.0 <= pe <= 1.0, "sqlite-pep-range", f"{name} row {rid}: PEP {pe!r} is not a probability (score {s_!r})")
+            require(q is not None and 0.0 < q <= 1.0, "sqlite-q-range", f"{name} row {rid}: q-value {q!r}")
+            if name == "CANDIDATE":
+                require(abs(s_ - by_id[rid]) <= 1e-9 * max(1.0, abs(s_)), "sqlite-score", f"{name} row {rid}: score {s_!r}, handed over {by_id[rid]!r}")
+            else:
+                require(any(abs(s_ - g) <= 1e-9 * max(1.0, abs(g)) for g in given) if len(given) < 400 else True, "sqlite-score",
+                        f"{name} row {rid}: score {s_!r} is none of the scores handed over")
+            want = float(config_inject.pep_stub([-s_ if case.get("lowbetter") else s_])[0])
+            require(abs(pe - want) <= 1e-9, "sqlite-pep-not-own", f"{name} row {rid}: PEP {pe!r} is not the PEP of the row's own score {s_!r} ({want!r})")
+        srt = sorted(rows, key=lambda r: (r[2] if case.get("lowbetter") else -r[2]))
+        for a, b in zip(srt, srt[1:]):
+            require(a[1] <= b[1] + 1e-12 and a[3] <= b[3] + 1e-12, "sqlite-not-monotone", f"{name}: q-value / PEP decrease as the score worsens ({a} -> {b})")
+    return {"nontrivial": True, "classes": ["sqlite-output", "sqlite-lower-is-better" if case.get("lowbetter") else "sqlite-higher-is-better"],
+            "counters": {"sqlite_rows_checked": len(psm) + len(pep)}}
+
+
 def check(case):
+    if case.get("kind") == "sqlite":
+        return _check_sqlite(case)
     import mokapot
 
     algo = case["algo"]
@@ -183,7 +248,15 @@ def check(case):
     # permutation equivariance (the alignment oracle); one of the permutations is the descending sort callers use
     p = np.random.default_rng(case["perm"]).permutation(n)
     has_ties = len(np.unique(scores)) < n
-    for name, perm in (("random", p), ("descending", order)):
+    # block layouts, as concatenating a ranked target list and a ranked decoy list produces them
+    tpos, dpos = np.flatnonzero(targets), np.flatnonzero(~targets)
+    t_desc, d_desc = tpos[np.argsort(-scores[tpos], kind="stable")], dpos[np.argsort(-scores[dpos], kind="stable")]
+    layouts = [("random", p), ("descending", order)]
+    layouts.append([("targets-then-decoys-each-descending", np.concatenate([t_desc, d_desc])),
+                    ("decoys-then-targets-each-descending", np.concatenate([d_desc, t_desc])),
+                    ("ascending", order[::-1]),
+                    ("targets-descending-decoys-ascending", np.concatenate([t_desc, d_desc[::-1]]))][case["perm"] % 4])
+    for name, perm in layouts:
         if algo in Q_ALGOS and has_ties:
             # the count-based estimates walk through tied PSMs in an arbitrary order, so their value for a tie group
             # legitimately depends on the input order; alignment is then judged by monotonicity / tie equality only
